@@ -31,6 +31,8 @@ type Hooks struct {
 	// TypeCase refines st on entry to a type-switch clause. x is the switched expression, bind the
 	// symbol bound by `switch v := x.(type)` (may be nil). types==nil for default.
 	TypeCase func(x ast.Expr, bind *ast.Ident, cc *ast.CaseClause, st State) State
+	// TypeMiss refines st on the path of a type switch without default on which no clause matched.
+	TypeMiss func(x ast.Expr, sw *ast.TypeSwitchStmt, st State) State
 	// CaseMatch refines st by tag == val (truth) for expression switches with a tag.
 	CaseMatch func(tag, val ast.Expr, truth bool, st State) State
 	// RangeBody gives the state on entry to a range body (key/value assigned).
@@ -465,7 +467,11 @@ func (w *walker) stmt(s ast.Stmt, st State, label string) State {
 			out = w.join(out, o)
 		}
 		if !hasDefault {
-			out = w.join(out, w.copy(st))
+			miss := w.copy(st)
+			if miss != nil && w.h.TypeMiss != nil {
+				miss = w.h.TypeMiss(x, s, miss)
+			}
+			out = w.join(out, miss)
 		}
 		w.targets = w.targets[:len(w.targets)-1]
 		return w.join(out, tgt.breakSt)
